@@ -2,6 +2,8 @@ package main
 
 import (
 	"encoding/json"
+
+	"github.com/xinchentechnote/fin-proto-go/simrt"
 	"fmt"
 	"os"
 	"sort"
@@ -30,6 +32,12 @@ func (s *Stats) add(k string, n uint64) { s.Counters[k] += n }
 
 func (s *Stats) merge(o *Stats) {
 	for k, v := range o.Counters {
+		if strings.HasPrefix(k, "max.") {
+			if v > s.Counters[k] {
+				s.Counters[k] = v
+			}
+			continue
+		}
 		s.Counters[k] += v
 	}
 }
@@ -42,6 +50,7 @@ type RunCtx struct {
 	T        *Tape
 	Stats    *Stats
 	Tracing  bool
+	Live     bool // exec child: stream trace lines to stdout as they happen (survives a process abort)
 	Trace    []string
 	fired    bool // some fault / history / switch actually fired
 	oracles  int  // oracle clauses evaluated on real library output
@@ -55,7 +64,7 @@ func (c *RunCtx) Fire(kind string) {
 	c.fired = true
 	c.Stats.add("fault."+kind, 1)
 	if c.Tracing {
-		c.Trace = append(c.Trace, "FAULT "+kind)
+		c.emit("FAULT " + kind)
 	}
 }
 
@@ -70,7 +79,14 @@ func (c *RunCtx) Oracle(name string) {
 
 func (c *RunCtx) Logf(format string, a ...any) {
 	if c.Tracing {
-		c.Trace = append(c.Trace, fmt.Sprintf(format, a...))
+		c.emit(fmt.Sprintf(format, a...))
+	}
+}
+
+func (c *RunCtx) emit(line string) {
+	c.Trace = append(c.Trace, line)
+	if c.Live {
+		fmt.Printf("L %s\n", strings.ReplaceAll(line, "\n", "\\n"))
 	}
 }
 
@@ -82,7 +98,7 @@ func (c *RunCtx) LogValue(label string, v any) {
 		if len(s) > 3000 {
 			s = s[:3000] + "…"
 		}
-		c.Trace = append(c.Trace, label+" "+s)
+		c.emit(label + " " + s)
 	}
 }
 
@@ -117,6 +133,7 @@ type scenario struct {
 	Run      func(c *RunCtx)
 	Race     bool   // needs the -race build
 	MemLimit bool   // worker runs under the simulated machine's address-space limit
+	AbortIsViolation bool // an out-of-memory abort of the process is this property's violation (otherwise: counted, skipped)
 	Level    string // evidence level
 	Rule     string
 	Quick    uint64 // runs per tier
@@ -141,8 +158,8 @@ type RunResult struct {
 	Infra      string     `json:"infra,omitempty"`
 }
 
-func executeRun(sc *scenario, tier string, tape *Tape, stats *Stats, tracing bool, known map[string]string, index uint64) (res RunResult) {
-	c := &RunCtx{Prop: sc.Prop, Tier: tier, Thorough: tier == "thorough", T: tape, Stats: stats, Tracing: tracing, Known: known, Index: index}
+func executeRun(sc *scenario, tier string, tape *Tape, stats *Stats, tracing bool, known map[string]string, index uint64, live ...bool) (res RunResult) {
+	c := &RunCtx{Live: len(live) > 0 && live[0], Prop: sc.Prop, Tier: tier, Thorough: tier == "thorough", T: tape, Stats: stats, Tracing: tracing, Known: known, Index: index}
 	func() {
 		defer func() {
 			if r := recover(); r != nil {
@@ -152,6 +169,13 @@ func executeRun(sc *scenario, tier string, tape *Tape, stats *Stats, tracing boo
 					res.Infra = "tape overflow"
 				case infraError:
 					res.Infra = x.msg
+				case simrt.LibraryFatal:
+					// the library did, outside any simulated task, what kills or hangs a real process
+					if sc.Race {
+						c.viol = &Violation{Property: sc.Prop, Class: sc.Prop + "/fatal", Sig: sc.Prop + "/fatal", Detail: "the library did what aborts or hangs a real process: " + x.Msg}
+					} else {
+						res.Infra = "library fatal outside this property's subject: " + x.Msg
+					}
 				default:
 					// a panic that escaped a scenario is a harness bug, never a VIOLATION
 					res.Infra = fmt.Sprintf("harness panic: %v\n%s", r, debugStack())
